@@ -81,3 +81,29 @@ Proof. intros mode t0 ops H0 Hc. exact (proj1 (coarse_inv_every_history_sym mode
 Check C07_cache_content_addressed.
 Check C07_every_history.
 Check C07_every_history_any_clock.
+
+
+(* ---- interleavings at cache operations (Model/Fine.v) ----
+   Every state a build passes through, under EVERY interleaving `ch` of the rule threads' steps at the
+   shared cache directory (any prefix of any run: `ch` is arbitrary), satisfies the disk invariant, so
+   each cache entry holds the content it is named after at every instant of a concurrent build, not only
+   at its end. Non-vacuity: Proofs/FineCorExamples.v (two rules racing for one cache entry). *)
+From Ruler Require Import Inv Ideal BuildSpec InvFacts C01Hist C01Facts C11Facts C02Sym Sched Fine FineFacts FineCorStep FineCor FineStatus FineCorFinal FineCorExamples.
+Local Open Scope nat_scope.
+
+Theorem C07_every_state_of_every_interleaving : forall (w : world sym) rp goal w1 tbl pack hists blobs t' ch,
+  disk_inv sym_eqb SContent w -> hist_sound_sym w -> no_bad_state_files sym sym_eqb w ->
+  init_dir sym w = Ok (w1, tbl) -> get_nodes sym w1 rp goal = Ok pack -> Forall det_node (p_nodes pack) ->
+  read_histories sym sym_eqb SRule w1 (p_nodes pack) = Some hists ->
+  take_blobs sym SContent tbl (worker_paths pack) = (blobs, t') ->
+  let st := frun_sym pack blobs hists ch (fn_start_sym w1 t' pack) in
+  disk_inv sym_eqb SContent (fn_world st) /\ hist_sound_sym (fn_world st) /\ no_bad_state_files sym sym_eqb (fn_world st).
+Proof. exact fine_crash_ok_sym. Qed.
+Print Assumptions C07_every_state_of_every_interleaving.
+
+(* the user's mtime-preserving `mv` (an older copy put back at a path) keeps the invariant as well *)
+From Ruler Require Import MvFacts.
+Theorem C07_user_mv_keeps_invariant : forall (w : world sym) p q,
+  disk_inv sym_eqb SContent w -> disk_inv sym_eqb SContent (move_file w p q).
+Proof. exact mv_keeps_disk_inv_sym. Qed.
+Print Assumptions C07_user_mv_keeps_invariant.
